@@ -21,6 +21,28 @@ impl Img {
     pub fn make(rng: &mut Rng, sz: usize, n: usize) -> Img {
         let total = sz * n;
         let mut bytes = rng.bytes(total);
+        // firmware-like content in a third of the images: fragments of 0xFF padding, all-zero fragments, repeated
+        // fragments (equal blocks XOR to zero), fragments beginning with FF FF FF FF
+        if n >= 3 && rng.chance(1, 3) {
+            let style = rng.below(4);
+            let k = rng.range(1, (n as u64 / 2).max(1)) as usize;
+            for _ in 0..k {
+                let i = rng.below(n as u64) as usize;
+                let j = rng.below(n as u64) as usize;
+                match style {
+                    0 => bytes[i * sz..(i + 1) * sz].fill(0xFF),
+                    1 => bytes[i * sz..(i + 1) * sz].fill(0x00),
+                    2 => {
+                        let src = bytes[j * sz..(j + 1) * sz].to_vec();
+                        bytes[i * sz..(i + 1) * sz].copy_from_slice(&src);
+                    }
+                    _ => {
+                        let m = sz.min(4);
+                        bytes[i * sz..i * sz + m].fill(0xFF);
+                    }
+                }
+            }
+        }
         let crc = if total > 68 { crc_cksum(&bytes[68..]) } else { crc_cksum(&[]) };
         let c = crc.to_le_bytes();
         for i in 0..4.min(total) {
@@ -384,7 +406,8 @@ pub fn gen_geometry(seed: u64, thorough: bool, o: &mut Out) -> Vec<String> {
     let mut rng = Rng::new(seed ^ 0x15);
     let mut q = vec![];
     let vals: Vec<u32> = vec![0, 1, 2, 255, 256, 257, 16383, 16384, 16385, 65535, 65536, 0x7FFF_FFFF, 0xFFFF_FFFF];
-    let slots: Vec<usize> = if thorough { vec![17409 + 255, 20480, 24576, 65536, 262144] } else { vec![20480, 65536] };
+    // 294912 / 299008: the documented capacity reaches its maximum 2047 (1..3-byte / 16-byte fragments)
+    let slots: Vec<usize> = if thorough { vec![17409 + 255, 20480, 24576, 65536, 262144, 294912, 299008, 1048576] } else { vec![20480, 65536, 294912] };
     for slot in &slots {
         let block = if slot % 4096 == 0 { 4096 } else { 1 };
         let slot = if block == 1 { *slot } else { *slot };
@@ -393,6 +416,14 @@ pub fn gen_geometry(seed: u64, thorough: bool, o: &mut Out) -> Vec<String> {
                 q.push(format!("new dev 4 {} {}", slot, if block == 1 { slot } else { 4096 }));
                 q.push(format!("start {} {}", sz, n));
                 o.stat("geometry-boundary-pairs");
+            }
+        }
+        // every fragment size once on the big slots (the capacity oracle of `start` compares with the documented bound)
+        if slot >= 262144 {
+            for sz in [1u32, 2, 3, 4, 8, 16, 17, 64, 255, 256] {
+                q.push(format!("new dev 4 {} 4096", slot));
+                q.push(format!("start {} {}", sz, 100));
+                o.stat("geometry-large-slot-capacity");
             }
         }
         // around the exact fit
@@ -1321,9 +1352,20 @@ pub fn gen_ring(seed: u64, thorough: bool, o: &mut Out) -> Vec<String> {
                         for i in 1..=img.n as u32 {
                             push(&mut q, &mut ex, format!("seg {} {}", i, hex(&img.fragment(i))));
                         }
-                        push(&mut q, &mut ex, "check".into());
+                        if rng.chance(1, 6) {
+                            // power loss between (k = 1) or before (k = 0) the two final marks
+                            let k = rng.below(2);
+                            push(&mut q, &mut ex, format!("crash {}", k));
+                            push(&mut q, &mut ex, "check".into());
+                            push(&mut q, &mut ex, "reboot".into());
+                            push(&mut q, &mut ex, "bl life".into());
+                            push(&mut q, &mut ex, "recover".into());
+                            o.stat("ring-crash-in-check");
+                        } else {
+                            push(&mut q, &mut ex, "check".into());
+                            o.stat("ring-complete");
+                        }
                         live_img = None;
-                        o.stat("ring-complete");
                     }
                 }
                 6 => {
